@@ -53,14 +53,22 @@ def run(tier, seed):
     for k in range(n):
         c = rrgen.hostile_event(rnd, 'h%d' % k) if rnd.random() < 0.8 else rrgen.full_event(rnd, 'h%d' % k)
         c['maxpop'] = 2000 if rnd.random() < 0.02 else rnd.choice([70, 130, 200]); c['mode'] = rnd.choice('np'); cases.append(c)
+    # exceptions next to the rules: EXDATE lists, EXRULEs that take out some, most or every occurrence of the rule (an EXRULE equal to a
+    # sub-daily RRULE leaves nothing: the walk to the end of the stream is the open finding C09-exrule-covers-rule)
+    for k, (fr, xfr, ds) in enumerate([('DAILY', 'DAILY', (2020, 1, 1, 9, 0, 0)), ('HOURLY', 'DAILY', (2020, 1, 1, 9, 0, 0)), ('WEEKLY', 'DAILY', (2020, 1, 1)), ('MONTHLY', 'YEARLY', (2020, 1, 31)),
+                                       ('MINUTELY', 'MINUTELY', (2024, 1, 1, 0, 0, 0)), ('SECONDLY', 'SECONDLY', (2024, 1, 1, 0, 0, 0)), ('SECONDLY', 'MINUTELY', (2024, 1, 1, 0, 0, 0)), ('HOURLY', 'HOURLY', (2000, 1, 1, 0, 0, 0))]):
+        rt = 'FREQ=' + fr; xt = 'FREQ=' + xfr
+        c = {'uid': 'x%d' % k, 'ds': rrgen.inst(ds), 'tz': False, 'rtext': rt + ' EX ' + xt, 'count': 0, 'until': [], 'ics': rrgen.event_ics('x%d' % k, ds, [rt], exrules=[xt]), 'maxpop': 70, 'mode': 'p',
+             'exrule_covers': fr == xfr, 'freq': fr}
+        cases.append(c)
     calls = []
     for k in range(n):
         y = rnd.choice([1900, 1901, 1902, 1970, 2000, 2037, 2038, 2077, 2097, 2098, 2099] + rrgen.year_types()); m = rnd.randint(1, 12); d = rnd.choice([1, 28, 29, 30, 31]); d = min(d, rrgen.dim(y, m))
         ds = (y, m, d, rnd.choice([0, 12, 23]), rnd.choice([0, 30, 59]), rnd.choice([0, 59])) if rnd.random() < 0.7 else (y, m, d)
         calls.append((ds, rnd.choice([64, 64, 64, 63, 1, 2, 3, 17]), rrgen.hostile_rule_text(rnd, ds) if rnd.random() < 0.8 else rrgen.ext_rule_text(rnd, ds)[0]))
-    nsl = vlib.NCPU; per = -(-n // nsl)
+    nsl = vlib.NCPU; per = -(-n // nsl); perc = -(-len(cases) // nsl)
     with cf.ThreadPoolExecutor(max_workers=nsl) as ex:
-        recs = [r for part in ex.map(lambda k: strmrun.run_cases(drv, cases[k * per:(k + 1) * per], wd, 'h%d' % k, budget=budget), range(nsl)) for r in part]
+        recs = [r for part in ex.map(lambda k: strmrun.run_cases(drv, cases[k * perc:(k + 1) * perc], wd, 'h%d' % k, budget=budget), range(nsl)) for r in part]
         frecs = [r for part in ex.map(lambda k: fill_calls(drf, calls[k * per:(k + 1) * per], wd, 'f%d' % k, budget), range(nsl)) for r in part]
     nocc = sum(len(r.get('occ', [])) for r in recs)
     for r in recs:
